@@ -16,6 +16,7 @@ pub mod h_trace;
 pub mod h_layout;
 pub mod h_tls;
 pub mod h_fmt;
+pub mod h_prog;
 #[cfg(feature = "cleaners")]
 pub mod h_clean;
 #[cfg(feature = "auto-collect")]
